@@ -154,6 +154,85 @@ def doubling_contract():
                     doc="Newton doubling returns the same exact derivatives (first-order ODEs)")
 
 
+_RUF = {}
+
+
+def residual_uf(m, nargs):
+    from vcgen import prims
+
+    if (m, nargs) not in _RUF:
+        def native(*args):
+            *cs, t = args
+            out = cs[-1] * 1.0
+            for i, c in enumerate(cs[:-1]):
+                out = out - jnp.sin(c * (0.4 + 0.1 * i)) * (1.0 + 0.2 * t)
+            return out
+        _RUF[(m, nargs)] = prims.make_uf(f"res_m{m}_k{nargs}", [(m,)] * nargs, (m,), native=native)
+    return _RUF[(m, nargs)]
+
+
+def residual_routine_contract():
+    """``jetexpand_residual``: what the routine hands to the constrained least-squares solver, and what it does with
+    the answer.  The solver is an abstract object obeying the contract proved for the real Gauss-Newton routine in
+    C19 (returned point = mean + L L^T w for some w): the ghost multiplier ``w`` is an arbitrary input, so the
+    clauses hold for every point such a solver can return."""
+
+    def wrap(target):
+        def f(inits, t, w, probe, *, m, num, nargs):
+            import probdiffeq.probdiffeq as pd
+            from probdiffeq._probdiffeq import problems
+
+            r = residual_uf(m, nargs)
+            residual = problems.JetResidual(lambda *, jet_coords, t: [r(*jet_coords, t)], jacobian=pd.jacobian_materialize(), num_tcoeffs_in_args=nargs)
+            seen = {}
+
+            class AbstractLstSq:
+                def __call__(self, fun, x0, mean, cholesky, **kw):
+                    assert not kw
+                    seen.update(x0=x0, mean=mean, cholesky=cholesky, at_probe=fun(probe))
+                    return mean + cholesky @ (cholesky.T @ w), {"iters": 0}
+
+            tcoeffs, _ = target(num, nlstsq=AbstractLstSq())(residual, list(inits), t=t)
+            return list(tcoeffs), seen["x0"], seen["mean"], seen["cholesky"], seen["at_probe"]
+
+        return f
+
+    def ensures(res, inits, t, w, probe, *, m, num, nargs):
+        tcoeffs, x0, mean, chol, at_probe = res
+        k = len(inits)
+        r = residual_uf(m, nargs)
+        given = jnp.concatenate([jnp.reshape(x, (-1,)) for x in inits])
+        n_given = k * m
+        cl = [holds("number_of_coefficients", jnp.asarray(len(tcoeffs) == k + num))]
+        for j in range(k):
+            cl.append(eq(f"given_coefficient_{j}_returned_unchanged", tcoeffs[j], inits[j]))
+        cl += [
+            eq("start_point_given_part", x0[:n_given], given), eq("start_point_free_part_zero", x0[n_given:], 0.0),
+            eq("prior_mean_is_start_point", mean, x0),
+            eq("given_coefficients_are_not_degrees_of_freedom", chol[:n_given, :], 0.0),
+            eq("free_block_is_diagonal", chol[n_given:, :] * (1.0 - jnp.eye(chol.shape[0])[n_given:, :]), 0.0),
+            holds("every_added_coefficient_is_a_degree_of_freedom", jnp.all(jnp.diagonal(chol)[n_given:] > 0)),
+        ]
+        coords = [probe[i * m : (i + 1) * m] for i in range(nargs)]
+        cl.append(eq("objective_is_the_residual_of_the_leading_coefficients_at_t", at_probe, r(*coords, t)))
+        return cl
+
+    def instances(tier):
+        fam = [(1, 1, 2, 3), (2, 1, 1, 2), (1, 2, 1, 3)]  # (m, number of given coefficients, num, nargs)
+        if tier == "thorough":
+            fam += [(2, 1, 3, 4), (1, 1, 3, 2), (2, 2, 2, 4)]
+        out = []
+        for m, k, num, nargs in fam:
+            def make(rng, m=m, k=k, num=num, nargs=nargs):
+                D = (k + num) * m
+                return (tuple(jnp.asarray(rng.normal(size=(m,))) for _ in range(k)), jnp.asarray(rng.normal()), jnp.asarray(rng.normal(size=(D,))), jnp.asarray(rng.normal(size=(D,)))), {"m": m, "num": num, "nargs": nargs}
+            out.append(Instance(f"m={m},given={k},num={num},nargs={nargs}", make, names=lambda a, kw: {id(a[1]): "t0", id(a[2]): "w", id(a[3]): "y", **{id(x): f"u{i}" for i, x in enumerate(a[0])}}))
+        return out
+
+    return Contract(name=f"{MOD}:jetexpand_residual", module=MOD, qualname="jetexpand_residual", wrap=wrap, ensures=ensures, instances=instances,
+                    doc="given coefficients are returned unchanged and are not degrees of freedom; every added coefficient is one; the objective handed to the least-squares solver is the residual of the leading coefficients at the requested time; start point and prior mean are (inits, 0)")
+
+
 def contracts():
-    out = [routine_contract(r) for r in ROUTINES] + [routine_contract("unroll", pytree=True), routine_contract("via_jvp", pytree=True), doubling_contract()]
+    out = [residual_routine_contract()] + [routine_contract(r) for r in ROUTINES] + [routine_contract("unroll", pytree=True), routine_contract("via_jvp", pytree=True), doubling_contract()]
     return out
